@@ -72,6 +72,9 @@ DEST = [("127.0.0.1", 8002), ("127.0.0.1", 8003), ("10.0.0.9", 8004), ("127.0.0.
         ("127.0.0.1", 8006), ("127.0.0.1", 8007), ("127.0.0.1", 8008), ("127.0.0.1", 8009)]
 
 
+INPROCESS = True       # the whole table runs in ~1 s (thorough ~3 s); a process pool only adds fork cost
+
+
 class HarnessError(BaseException):
     pass
 
@@ -129,6 +132,28 @@ def fname(spec):
 
 def same_error(raised, injected):
     return raised is not None and type(raised) is type(injected) and raised.args == injected.args
+
+
+class PrefixFailed(Exception):
+    """A fault-free preparatory operation of a case misbehaved; recorded as a failure of the case."""
+
+
+_ANY = object()
+
+
+def pre(J, what, fn, *a, **kw):
+    """Run a preparatory (fault-free) operation of the case; anything unexpected is a finding about
+    ioflo on that case (signature 'prefix-...'), not a harness error."""
+    want = kw.get("want", _ANY)
+    try:
+        res = fn(*a)
+    except Exception as ex:       # noqa: BLE001
+        J.fails.append(("prefix-%s@%s" % (D.exc_site(ex), J.where), "%s: %s raised %r" % (J.entry, what, ex)))
+        raise PrefixFailed()
+    if want is not _ANY and not want(res):
+        J.fails.append(("prefix-unexpected-result@%s" % (J.where,), "%s: %s returned %r" % (J.entry, what, res)))
+        raise PrefixFailed()
+    return res
 
 
 def call(fn, *a):
@@ -191,8 +216,7 @@ def run_tcp(case, J):
         sock.scripts["send"].push(*([D.FULL] * pos + [inj]))
         if entry == "send":
             for i in range(pos):
-                if obj.send(b"ok") != 2:
-                    raise HarnessError("prefix send failed")
+                pre(J, "send before the fault", obj.send, b"ok", want=lambda r: r == 2)
             before = snapshot(obj, sock)
             res, ex = call(obj.send, b"data")
         else:
@@ -224,14 +248,13 @@ def run_tcp(case, J):
     sock.scripts["recv"].push(*(chunks[:pos] + [inj, more]))
     if entry == "receive":
         for i in range(pos):
-            if obj.receive() != chunks[i]:
-                raise HarnessError("prefix receive failed")
+            pre(J, "receive before the fault", obj.receive, want=lambda r, i=i: r == chunks[i])
         before = snapshot(obj, sock)
         res, ex = call(obj.receive)
         rx_expected = None
     elif entry == "serviceReceiveOnce":
         for i in range(pos):
-            obj.serviceReceiveOnce()
+            pre(J, "serviceReceiveOnce before the fault", obj.serviceReceiveOnce)
         before = snapshot(obj, sock)
         res, ex = call(obj.serviceReceiveOnce)
         rx_expected = b"".join(chunks[:pos])
@@ -276,8 +299,7 @@ def run_connect(case, J):
         sock.scripts["connect_ex"].push(*([errno.EINPROGRESS] * pos + [code if mode == "code" else inj]))
         fn = obj.connect if entry == "connect" else obj.serviceConnect
         for i in range(pos):
-            if fn():
-                raise HarnessError("connected during EINPROGRESS prefix")
+            pre(J, "connect attempt answered EINPROGRESS", fn, want=lambda r: not r)
         res, ex = call(fn)
         if mode == "raise":
             J.expect_propagates(ex, inj)
@@ -301,22 +323,20 @@ def run_handshake(case, J):
         obj, sock = D.client_on_double(tls=True, connect=False)
         sock.scripts["do_handshake"].push(*script)
         if entry == "handshake":
-            if not obj.accept():              # connect_ex -> 0
-                raise HarnessError("accept on a double failed")
+            pre(J, "accept (connect_ex -> 0)", obj.accept, want=bool)
             obj.wrap()
             fn = obj.handshake
         else:
             fn = obj.connect                  # accept + wrap + handshake attempt
         for i in range(pos):
-            if fn():
-                raise HarnessError("connected during want-read prefix")
+            pre(J, "handshake attempt answered want-read/want-write", fn, want=lambda r: not r)
     else:
         obj, sock = D.incomer_on_double(tls=True, handshake=False)
         sock.scripts["do_handshake"].push(*script)
         fn = obj.handshake if entry == "handshake" else obj.serviceHandshake
         for i in range(pos):
-            if fn():
-                raise HarnessError("connected during want-read prefix")
+            pre(J, "handshake attempt answered want-read/want-write", fn, want=lambda r: not r)
+
     def state():
         # the live socket must still be the accepted double (ClientTls.connect wraps it on its first call)
         return (obj.connected, getattr(obj.cs, "raw", obj.cs) is sock, sock.closed, len(sock.shuts), obj.cutoff)
@@ -356,8 +376,7 @@ def run_udp(case, J):
         grams = [(b"g%d" % i, DEST[i % len(DEST)]) for i in range(pos + 1)]
         sock.scripts["recvfrom"].push(*(grams[:pos] + [inj, grams[pos]]))
         for i in range(pos):
-            if obj.receive() != grams[i]:
-                raise HarnessError("prefix receive failed")
+            pre(J, "receive before the fault", obj.receive, want=lambda r, i=i: r == grams[i])
         res, ex = call(obj.receive)
         if cat == "would":
             if J.expect_no_raise(ex, "a would-block on recvfrom"):
@@ -376,8 +395,7 @@ def run_udp(case, J):
         return
     sock.scripts["sendto"].push(*([D.FULL] * pos + [inj]))
     for i in range(pos):
-        if obj.send(b"ok", DEST[0]) != 2:
-            raise HarnessError("prefix send failed")
+        pre(J, "send before the fault", obj.send, b"ok", DEST[0], want=lambda r: r == 2)
     res, ex = call(obj.send, b"data", DEST[1])
     if cat == "other":
         J.expect_propagates(ex, inj)
@@ -421,7 +439,7 @@ def run_gram(case, J):
         fn = stack.serviceTxPktsOnce if once else stack.serviceTxPkts
         if once:
             for i in range(pos):
-                fn()
+                pre(J, "service call before the fault", fn)
         res, ex = call(fn)
         if cat == "loss":
             if J.expect_no_raise(ex, "a transient destination error on datagram send"):
@@ -452,7 +470,7 @@ def run_gram(case, J):
     fn = stack.serviceReceivesOnce if once else stack.serviceReceives
     if once:
         for i in range(pos):
-            fn()
+            pre(J, "service call before the fault", fn)
     res, ex = call(fn)
     got = [(bytes(pk.packed), ha) for pk, ha in stack.rxPkts]
     if cat in ("loss", "would"):
@@ -503,7 +521,7 @@ def run_tcpstack(case, J):
     fn = getattr(stack, entry)
     if entry.endswith("Once") and side == "tx":
         for i in range(pos):
-            fn()
+            pre(J, "service call before the fault", fn)
     res, ex = call(fn)
     if cat == "loss":
         if J.expect_no_raise(ex, "a connection-loss error under the stack"):
@@ -578,24 +596,27 @@ def run_case(case):
     J = Judge(case)
     subject = case["subject"]
     op = case["op"]
-    if op == "connect_ex":
-        run_connect(case, J)
-        cat = "connect-" + case["mode"]
-    elif op == "do_handshake":
-        run_handshake(case, J)
-        cat = "handshake-" + category(case["fault"])
-    else:
-        if subject in TCP:
-            run_tcp(case, J)
-        elif subject == "SocketUdpNb":
-            run_udp(case, J)
-        elif subject in ("GramStack", "UdpStack"):
-            run_gram(case, J)
-        elif subject == "TcpClientStack":
-            run_tcpstack(case, J)
+    try:
+        if op == "connect_ex":
+            cat = "connect-" + case["mode"]
+            run_connect(case, J)
+        elif op == "do_handshake":
+            cat = "handshake-" + category(case["fault"])
+            run_handshake(case, J)
         else:
-            raise HarnessError("unknown subject %r" % (subject,))
-        cat = category(case["fault"])
+            cat = category(case["fault"])
+            if subject in TCP:
+                run_tcp(case, J)
+            elif subject == "SocketUdpNb":
+                run_udp(case, J)
+            elif subject in ("GramStack", "UdpStack"):
+                run_gram(case, J)
+            elif subject == "TcpClientStack":
+                run_tcpstack(case, J)
+            else:
+                raise HarnessError("unknown subject %r" % (subject,))
+    except PrefixFailed:
+        pass
     lossy = op != "connect_ex" and category(case["fault"]) == "loss"
     nt = lossy and (subject in TLS or subject in STACKS)
     classes = [subject, "cat=" + cat, "%s.%s" % (subject, case["entry"])]
